@@ -84,7 +84,7 @@ Diagnose ==
          ELSE IF ~Rec.objs[Bad].kinds_ok THEN "after " \o Rec.name \o ": quantum numbers are not stored as integer sequences"
          ELSE "after " \o Rec.name \o ": tensor shapes inconsistent")
     ELSE IF ~Rec.boundary_fixed THEN "after " \o Rec.name \o ": total quantum numbers of a non-zero state changed"
-    ELSE IF PoolOK /\ ~ActionOK THEN "spec: after " \o Rec.name \o ": the projections before / after the call are not related by the " \o Rec.rule \o " action of Sector.tla"
+    ELSE IF Strict /\ (PoolOK /\ ~ActionOK) THEN "spec: after " \o Rec.name \o ": the projections before / after the call are not related by the " \o Rec.rule \o " action of Sector.tla"
     ELSE "after " \o Rec.name \o ": an object disappeared from / appeared in the pool unexpectedly"
 TReject == /\ HasRec /\ (IF Rec.ev # "op" THEN TRUE ELSE (OpOK = FALSE))        \* IF: TLC evaluates both sides of an action-level \/
            /\ PrintT(<<"REJECT", tid, l, Rec.ev, Diagnose>>)
